@@ -9,6 +9,8 @@ from . import libcommon
 
 THEOREMS = ["c11_response_preserved", "c11_fails_iff_custom_message", "c11_every_standard_message_kind_is_bridged",
             "c11_arm_present_iff_kind_exists_under_every_feature_set"]
+THEOREMS_T = ["c11_translated_into_response_preserves_under_every_feature_set", "c11_translated_into_response_preserves",
+              "c11_translated_into_response_fails_on_custom", "c11_translated_into_msg"]
 
 
 def b64(s):
@@ -147,6 +149,59 @@ def run_under_features(run, w):
             w["features"], w["variant"], str(o.get("err", o))[:200]), desc)
 
 
+HARNESS_FEATURES = ["staking", "mt", "stargate", "iterator", "cosmwasm_2_0"]      # sylvia's default + harness/libdiff/Cargo.toml
+
+
+def imp_response(r):
+    """a response as a value of Model/Imp.v (the encoding of Facts/RespRefine.v; opaque parts are their JSON text)"""
+    def vs(x):
+        return "(VStr %s)" % coq_string(x if isinstance(x, str) else json.dumps(x, sort_keys=True, separators=(",", ":")))
+
+    def opt(x):
+        return "(VCon \"None\" [])" if x is None else "(VCon \"Some\" [%s])" % vs(str(x))
+    subs = []
+    for m in r["messages"]:
+        (k, body), = m["msg"].items()
+        if k == "stargate":
+            msg = "(VRec \"CosmosMsg::Stargate\" [(\"type_url\", %s); (\"value\", %s)])" % (vs(body["type_url"]), vs(body["value"]))
+        else:
+            msg = "(VCon %s [%s])" % (coq_string("CosmosMsg::" + k.capitalize()), vs(body))
+        subs.append("(VRec \"SubMsg\" [(\"id\", %s); (\"payload\", %s); (\"msg\", %s); (\"gas_limit\", %s); (\"reply_on\", (VCon %s []))])" % (
+            vs(str(m["id"])), vs(m["payload"]), msg, opt(m["gas_limit"]), coq_string("ReplyOn::" + m["reply_on"].capitalize())))
+    return ("(VRec \"Response\" [(\"messages\", VArr %s); (\"attributes\", VArr %s); (\"events\", VArr %s); (\"data\", %s)])" % (
+        coq_list(subs), coq_list([vs(a) for a in r["attributes"]]), coq_list([vs(e) for e in r["events"]]), opt(r["data"])))
+
+
+def run_translated(run, cases, obs):
+    """the translated into_response.rs (GenImp.resp_program under the harness features), executed by the evaluator of
+    Model/Imp.v on the same responses as the real function: validates the translation, the meaning given to the
+    cosmwasm-std builder methods and the value encoding of the theorems in Props/C11T"""
+    if any("into_response.rs" in n for n in run.notes):
+        return
+    header = ("From Coq Require Import String List.\nImport ListNotations.\nRequire Import SV.Model.Imp SV.Model.GenImp SV.Model.ImpRun.\n"
+              "Local Open Scope string_scope.\n")
+    feats = coq_list([coq_string(x) for x in HARNESS_FEATURES])
+    idx = [i for i, c in enumerate(cases) if all(ord(ch) < 128 for ch in json.dumps(c, ensure_ascii=False)) and "bad_input" not in obs[i]]
+    try:
+        ok, out, _ = common.coq_make(["theories/Model/ImpRun.vo"])
+        if not ok:
+            raise common.BuildError("ImpRun build failed", out[-1500:])
+        res = common.coq_eval(header, ["resp_outcome %s %d %s" % (feats, len(cases[i]["messages"]), imp_response(cases[i])) for i in idx],
+                              tag="c11t", per_file=300)
+    except common.BuildError as e:
+        run.notes.append("translated into_response.rs could not be run: %s" % str(e)[:300])
+        return
+    for i, r in zip(idx, res):
+        o = obs[i]
+        if "ok" in o:
+            impl = "same" if norm(o["ok"]) == norm(o["input"]) else "changed"
+        else:
+            impl = "custom" if "Custom Empty message" in o.get("err", "") else "error"
+        run.count()
+        if r != [impl]:
+            run.disagree("translated into_response.rs vs the real function", {"response": cases[i]}, r, [impl])
+
+
 def check(run, replay=None):
     libcommon.replay_setup(run, replay)
     rng = random.Random(run.seed)
@@ -155,6 +210,9 @@ def check(run, replay=None):
                 "ids incl. u64::MAX, payloads, gas limits, all reply triggers, attributes, events, data) converted by the real "
                 "IntoResponse::<MyMsg>::into_response and by the model; every kind alone; non-trivial = distinct response")
     libcommon.preamble(run, "Props/C11", THEOREMS, needs=("into_msg", "features"))
+    # tie by translation of sylvia/src/into_response.rs; when it is not established three times as many responses are
+    # converted by the real code and by the model below
+    tie = run.prove("Props/C11T", THEOREMS_T, strengthening=True)
     # search for a failing input when the feature theorem no longer holds: the witnessing feature set, for real
     try:
         w = feature_witness()
@@ -168,7 +226,7 @@ def check(run, replay=None):
         for ro in ("always", "error", "success", "never"):
             cases.append({"messages": [{"id": 5, "payload": b64("p"), "msg": gen_msg(rng, k), "gas_limit": 123, "reply_on": ro}],
                           "attributes": [{"key": "a", "value": "b"}], "events": [], "data": b64("d")})
-    for _ in range(3000 if thorough else 400):
+    for _ in range(3000 if thorough else (400 if tie else 1200)):
         cases.append(gen_response(rng))
     obs = libdiff.run([{"op": "into_response", "resp": c} for c in cases], tag="c11")
     model = libcommon.model_eval(run, [
@@ -206,6 +264,7 @@ def check(run, replay=None):
                 mod[1] = "unknown"
             if mod != impl:
                 run.disagree("into_response outcome", desc, model[i], impl)
+    run_translated(run, cases, obs)
     run.programs = 1
     # which interface arms are bridged (response -> into_response, ctx -> into_empty) in real expansions
     from . import msgprops
